@@ -407,12 +407,16 @@ example : deserialize asciiCEnv ['1'] (sortTys [.str, .bool, .int]) {} = some (.
     (by decide) (by decide)
 
 /-- the priority numbers the documentation promises for the modelled types:
-int < bool < float < Decimal < XmlTime < XmlDate < XmlDateTime < QName < str -/
+int < bool < float < Decimal < datetime < date < time < XmlTime < XmlDate < XmlDateTime <
+XmlDuration < XmlPeriod < QName < str; the binary types have no entry (key 0, tried first) -/
 theorem priority_order :
     Ty.int.prio < Ty.bool.prio ∧ Ty.bool.prio < Ty.float.prio ∧ Ty.float.prio < Ty.decimal.prio ∧
-    Ty.decimal.prio < Ty.xmlTime.prio ∧ Ty.xmlTime.prio < Ty.xmlDate.prio ∧
-    Ty.xmlDate.prio < Ty.xmlDateTime.prio ∧ Ty.xmlDateTime.prio < Ty.qname.prio ∧
-    Ty.qname.prio < Ty.str.prio := by decide
+    Ty.decimal.prio < Ty.pyDateTime.prio ∧ Ty.pyDateTime.prio < Ty.pyDate.prio ∧ Ty.pyDate.prio < Ty.pyTime.prio ∧
+    Ty.pyTime.prio < Ty.xmlTime.prio ∧ Ty.xmlTime.prio < Ty.xmlDate.prio ∧
+    Ty.xmlDate.prio < Ty.xmlDateTime.prio ∧ Ty.xmlDateTime.prio < Ty.xmlDuration.prio ∧
+    Ty.xmlDuration.prio < Ty.xmlPeriod.prio ∧ Ty.xmlPeriod.prio < Ty.qname.prio ∧
+    Ty.qname.prio < Ty.str.prio ∧
+    Ty.bytes.prio = 0 ∧ Ty.xmlHexBinary.prio = 0 ∧ Ty.xmlBase64Binary.prio = 0 := by decide
 
 /-! ## registry lookup -/
 
